@@ -144,11 +144,14 @@ package fluentdforward
 //@ pure func rwvaluesok(c SerializationConfig) bool :=
 //@     forall k int :: rawhas(c.RewriteFields, k) ==> forall i int :: 0 <= i && i < len(rawget(c.RewriteFields, k)) ==> rawget(c.RewriteFields, k)[i].Value != nil
 
+// the message modes NewChunkMaker can build (exact spelling: it ends the process on anything else)
+//@ pure func modeok(m forwardprotocol.MessageMode) bool := m == forwardprotocol.ModeForward || m == forwardprotocol.ModePackedForward || m == forwardprotocol.ModeCompressedPackedForward
 //@ func (cfg *Config) VerifyConfig(schema base.LogSchema) error
 //@   property C16
 //@   requires cfg != nil && rwvaluesok(cfg.Serialization)
 //@   modifies nothing
 //@   ensures[accepted-config-is-constructible] result == nil ==> serok(cfg.Serialization, schema)
+//@   ensures[accepted-message-mode-is-one-the-chunk-maker-builds] result == nil ==> modeok(cfg.MessageMode)
 //@   loop 1: invariant -1 <= rangeindex && rangeindex < len(cfg.Serialization.EnvironmentFields) && forall i int :: 0 <= i && i <= rangeindex ==> base.hasf(schema, key(cfg.Serialization.EnvironmentFields[i]))
 //@   loop 2: foreach k int :: base.hasf(schema, k) && bsupport.rwcsok(rawget(cfg.Serialization.RewriteFields, k), schema)
 
@@ -166,12 +169,16 @@ package fluentdforward
 //@   loop 2: invariant -1 <= rangeindex#2 && rangeindex#2 < len(fieldNames) && len(fieldRewriters) == len(fieldNames) && isfresh(fieldRewriters)
 //@   loop 3: invariant -1 <= rangeindex#3 && rangeindex#3 < len(fieldNames) && len(fieldMasks) == len(fieldNames) && isfresh(fieldMasks)
 
+// the pre-serialized keys: block i is exactly the MessagePack string item of key i (header and body, nothing cut off) - the
+// serializer copies these blocks verbatim in front of every value (C10)
 //@ func serializeStrings(strValues []string) []msgpackBlock
-//@   property C16
+//@   property C16 C10
 //@   requires forall i int :: 0 <= i && i < len(strValues) ==> len(strValues[i]) < 4294967296
 //@   modifies nothing
 //@   ensures  len(result) == len(strValues)
+//@   ensures[every-key-block-is-the-complete-msgpack-string-of-its-key] forall i int :: 0 <= i && i < len(strValues) ==> fastmsgpack.strat(result[i], 0, strValues[i], len(result[i]))
 //@   loop 1: invariant -1 <= rangeindex && rangeindex < len(strValues) && len(results) == len(strValues) && isfresh(results)
+//@   loop 1: invariant forall i int :: 0 <= i && i <= rangeindex ==> isfresh(results[i]) && allocated(results[i]) && fastmsgpack.strat(results[i], 0, strValues[i], len(results[i]))
 
 //@ func MustNewEventSerializer(parentLogger logger.Logger, schema base.LogSchema, config SerializationConfig) base.LogSerializer
 //@   property C16
@@ -187,3 +194,19 @@ package fluentdforward
 //@   modifies nothing
 //@   ensures[own-suffix-only] result ==> len(chunkID) >= 3 && chunkID[len(chunkID)-3] == 46 && chunkID[len(chunkID)-2] == 102 && chunkID[len(chunkID)-1] == 102
 //@   ensures[never-a-temporary-name] len(chunkID) >= 4 && chunkID[len(chunkID)-4] == 46 && chunkID[len(chunkID)-3] == 116 && chunkID[len(chunkID)-2] == 109 && chunkID[len(chunkID)-1] == 112 ==> !result
+
+// ==== the chunk maker of a pipeline (C11 C16): built for every verified message mode without ending the process (flag
+// checkpanics: the Fatalf is unreachable), and its chunks are cut by the configured limits - record limit and byte limit each
+// in its own place
+//@ func (cfg *Config) NewChunkMaker(parentLogger logger.Logger, tag string) base.LogChunkMaker
+//@   property C11 C16
+//@   flag nosafety noinfer checkpanics
+//@   requires cfg != nil && modeok(cfg.MessageMode)
+//@   modifies everything
+//@   before fluentdforward.buildNewChunkFunc: assert[chunks-are-cut-by-the-configured-record-and-byte-limits] arg3 == chunkMaxRecords && arg4 == chunkMaxSizeBytes
+//@ func buildNewChunkFunc$1(id string, writeBuffer *bytes.Buffer) shared.Chunker
+//@   property C11
+//@   modifies everything
+//@   ensures[new-chunk-carries-the-limits-and-the-id-it-was-made-for] typeis(result, *intermediateChunk) && as(result, *intermediateChunk).maxRecords == maxRecords && as(result, *intermediateChunk).maxBytes == maxBytes && as(result, *intermediateChunk).id == id
+//@        && as(result, *intermediateChunk).numRecords == 0 && as(result, *intermediateChunk).numBytes == 0
+
